@@ -16,9 +16,13 @@
 (*        executed ALONE (after the concurrent phase) on the result of conc call g.i:     *)
 (*        Decrypt(ct) must give back the plaintext, Verify(sig, msg) must accept           *)
 (*   {"ev":"end"}                            every randomized result has been inverted     *)
+(*   A call that returns a JWT carries what ITS caller asked for ("jwt":true, "hasTyp",    *)
+(*   "typ", "payload"): the returned compact token is decoded here (JWS.tla, RFC 7515       *)
+(*   section 7.1): its protected header must carry exactly that type header and its         *)
+(*   payload must be that caller's claims - not those of a call running at the same time.   *)
 (*   {"ev":"race","where":..}                a report of the Go race detector attached to  *)
 (*        the same run: the no-data-race clause (decided by the detector, recorded here)   *)
-EXTENDS Integers, Sequences, FiniteSets, Json, IOUtils, TLC
+EXTENDS JWS, FiniteSets, Json, IOUtils, TLC
 
 Trace == ndJsonDeserialize(IOEnv.VERIF_TRACE)
 Start == IF "VERIF_START" \in DOMAIN IOEnv THEN atoi(IOEnv.VERIF_START) ELSE 1
@@ -46,13 +50,30 @@ JudgeAlone(e) ==
          THEN <<"the same call executed alone twice returned different values", alone[Key(e)]>>
   ELSE <<>>
 
-JudgeConc(e) ==
+\* ---- a returned JWT, decoded independently of Tink
+Contains(hay, needle) == \E i \in 1..(Len(hay) - Len(needle) + 1) : SubSeq(hay, i, i + Len(needle) - 1) = needle
+TypMember(t) == StrToBytes("\"typ\":\"") \o StrToBytes(t) \o <<34>>
+JudgeJWT(e) ==
+  LET tok == JWSParse(HexToBytes(e.out)) IN
+  IF ~tok.ok THEN <<"the returned token is not a JWS compact serialization", e.out>>
+  ELSE IF e.hasTyp /\ ~Contains(tok.header, TypMember(e.typ))
+         THEN <<"the returned token's header does not carry the caller's type header", e.typ>>
+  ELSE IF ~e.hasTyp /\ Contains(tok.header, StrToBytes("\"typ\""))
+         THEN <<"the returned token's header carries a type header the caller did not set", "">>
+  ELSE IF tok.payload # HexToBytes(e.payload)
+         THEN <<"the returned token's payload is not the caller's claims", e.payload>>
+  ELSE <<>>
+IsJWT(e) == "jwt" \in DOMAIN e /\ ~e.err /\ ~e.panic
+
+JudgeConc0(e) ==
   IF e.panic THEN <<"a concurrent call panicked", Key(e)>>
   ELSE IF e.rand THEN
          IF Key(e) \notin DOMAIN alone THEN <<"coverage: no alone execution of this call was recorded", Key(e)>>
          ELSE IF e.err /\ alone[Key(e)] # "error" THEN <<"a concurrent call failed although the same call succeeds alone", Key(e)>>
          ELSE <<>>
   ELSE C!JudgeDeterministic(alone, Key(e), Res(e))
+
+JudgeConc(e) == IF JudgeConc0(e) # <<>> THEN JudgeConc0(e) ELSE IF IsJWT(e) THEN JudgeJWT(e) ELSE <<>>
 
 \* Inverts(c, out) of Concurrency.tla, decided by the logged alone inverse execution
 JudgeInv(e) ==
